@@ -458,7 +458,7 @@ func (c *connection) waitRead(n int) (err error) {
 	if dl := c.readDeadline; dl > 0 {
 		timeout := time.Duration(dl - time.Now().UnixNano())
 		if timeout <= 0 {
-			return Exception(ErrReadTimeout, c.remoteAddr.String())
+			return Exception(ErrReadTimeout, c.remoteAddrString())
 		}
 		return c.waitReadWithTimeout(n, timeout)
 	} else if c.readTimeout > 0 {
@@ -506,7 +506,7 @@ func (c *connection) waitReadWithTimeout(n int, timeout time.Duration) (err erro
 				if c.inputBuffer.Len() >= n {
 					return nil
 				}
-				return Exception(ErrReadTimeout, c.remoteAddr.String())
+				return Exception(ErrReadTimeout, c.remoteAddrString())
 			case err = <-c.readTrigger:
 				if err != nil {
 					goto RET
@@ -557,7 +557,7 @@ func (c *connection) waitFlush() (err error) {
 	if dl := c.writeDeadline; dl > 0 {
 		timeout = time.Duration(dl - time.Now().UnixNano())
 		if timeout <= 0 {
-			return Exception(ErrWriteTimeout, c.remoteAddr.String())
+			return Exception(ErrWriteTimeout, c.remoteAddrString())
 		}
 	}
 	if timeout == 0 {
@@ -587,8 +587,17 @@ func (c *connection) waitFlush() (err error) {
 		// if timeout, remove write event from poller
 		// we cannot flush it again, since we don't if the poller is still process outputBuffer
 		c.operator.Control(PollRW2R)
-		return Exception(ErrWriteTimeout, c.remoteAddr.String())
+		return Exception(ErrWriteTimeout, c.remoteAddrString())
 	}
+}
+
+// remoteAddrString is the peer address for error messages.
+// Connections created by NewFDConnection have no remote address.
+func (c *connection) remoteAddrString() string {
+	if c.remoteAddr == nil {
+		return ""
+	}
+	return c.remoteAddr.String()
 }
 
 func (c *connection) getState() connState {
